@@ -1106,7 +1106,7 @@ func (agg *aggregate) Process(ctx context.Context, man gdbi.Manager, in gdbi.InP
 				min := fieldValues[0]
 				max := fieldValues[len(fieldValues)-1]
 
-				for bucket := math.Floor(min/i) * i; bucket <= max; bucket += i {
+				for bucket := math.Floor(min/i) * i; bucket <= max; {
 					var count float64
 					for _, v := range fieldValues {
 						if v >= bucket && v < (bucket+i) {
@@ -1115,6 +1115,13 @@ func (agg *aggregate) Process(ctx context.Context, man gdbi.Manager, in gdbi.InP
 					}
 					//sBucket, _ := structpb.NewValue(bucket)
 					out <- &gdbi.BaseTraveler{Aggregation: &gdbi.Aggregate{Name: a.Name, Key: bucket, Value: float64(count)}}
+					next := bucket + i
+					if next <= bucket {
+						// the interval is below the resolution of values of this
+						// magnitude (1e17 + 1 == 1e17): the bucket cannot advance
+						break
+					}
+					bucket = next
 				}
 				return outErr
 			})
